@@ -444,7 +444,7 @@ Concat(ss) == IF ss = <<>> THEN <<>> ELSE Head(ss) \o Concat(Tail(ss))
 VecOrder == SetToSeq(Vecs)   \* any fixed order
 AllElems(st) == Concat([i \in 1..Len(VecOrder) |-> VecElems(st.v[VecOrder[i]])]) \o st.ext
 
-NoDup(s) == \A i, j \in 1..Len(s) : i # j => s[i] # s[j]
+NoDup(s) == Cardinality({s[i] : i \in 1..Len(s)}) = Len(s)
 
 WF(st) ==
   LET ids == Ids(AllElems(st)) IN
